@@ -45,6 +45,16 @@ def _rbind(draw, max_rows):
             kind = draw(st.sampled_from(FAMILIES[fam[nm]]))
             cols.append({"name": nm, "kind": kind, "vals": draw(gen.values(kind, n))})
         frames.append({"n": n, "cols": cols})
+    if draw(st.integers(0, 5)) == 0:
+        # every frame has the same columns with the same dtypes, listed in another order (a "same layout" shortcut that
+        # stacks by position would mix the columns up); values differ per column so that a mix-up shows
+        names = [x for x in POOL if draw(st.booleans())] or ["a", "b"]
+        kinds = {nm: draw(st.sampled_from(["i", "f", "i", "s", "b"])) for nm in names}
+        frames = []
+        for _ in range(k):
+            n = draw(gen.nrows(max_rows))
+            order = draw(st.permutations(names))
+            frames.append({"n": n, "cols": [{"name": nm, "kind": kinds[nm], "vals": draw(gen.values(kinds[nm], n, mode="pool", na="none"))} for nm in order]})
     return {"op": "rbind", "frames": frames}
 
 
